@@ -754,8 +754,8 @@ fn parts(ctx: &Ctx) -> Vec<PartSpec> {
     let e1 = |s: &str, pb: u64| PartSpec::new(&format!("e1-{}-pb{}", s, pb), json!({"e1": s, "pb": pb})).cpus("0");
     let mut v = vec![PartSpec::new("e4-sockets", json!({"e4": true})).budget(120.0), PartSpec::new("e3-sampling-on", json!({"sampling": true}))];
     let d = if ctx.quick() { 5 } else { 7 };
-    v.push(PartSpec::new(&format!("e3-seq-d{}-conservative-dist", d), json!({"seq": d, "aggressive": false, "as_dist": true})).budget(if ctx.quick() { 50.0 } else { 2400.0 }));
-    v.push(PartSpec::new(&format!("e3-seq-d{}-aggressive-hist", d - 1), json!({"seq": d - 1, "aggressive": true, "as_dist": false})).budget(if ctx.quick() { 50.0 } else { 2400.0 }));
+    v.push(PartSpec::new(&format!("e3-seq-d{}-conservative-dist", d), json!({"seq": d, "aggressive": false, "as_dist": true})).budget(if ctx.quick() { 150.0 } else { 2400.0 }));
+    v.push(PartSpec::new(&format!("e3-seq-d{}-aggressive-hist", d - 1), json!({"seq": d - 1, "aggressive": true, "as_dist": false})).budget(if ctx.quick() { 150.0 } else { 2400.0 }));
     if ctx.quick() {
         v.extend([e1("inc", 2), e1("abs", 2), e1("gauge", 2), e1("gauge-arith", 2), e1("hist", 2), e1("inc-aggressive", 1)]);
     } else {
